@@ -231,3 +231,7 @@ NOT_APPLICABLE = {
 }
 
 FIX_COMMITS = []
+
+# checks whose harnesses execute the Go models of the reflection pipeline: the native model-agreement test is part of the check
+for _p in ("C01", "C02", "C03", "C04", "C06", "C07", "C08", "C09", "C10", "C11", "C12", "C15", "C16"):
+    CHECKS[_p]["models"] = True
